@@ -88,6 +88,8 @@ def main(argv):
         mod = importlib.import_module("checks." + modname)
         tcfg = mod.TIERS[tier]
         timeout = tcfg.get("case_timeout", 60)
+        shrunk_sigs = set()
+        shrink_spent = [0.0]
         with open(outfile, "a") as out:
             for i in range(start, start + count):
                 rng = caseio.case_rng(seed, mod.PROPERTY, tier, i)
@@ -105,12 +107,20 @@ def main(argv):
                     sig = res["violations"][0].get("sig")
                     known = set(os.environ.get("VERIF_KNOWN_SIGS", "").split(","))
                     small = case
-                    if sig not in known and os.environ.get("VERIF_NO_SHRINK") != "1":
+                    # shrink only the first witness of each unlisted signature in this worker, within a time budget
+                    if sig not in known and sig not in shrunk_sigs and os.environ.get("VERIF_NO_SHRINK") != "1" \
+                            and shrink_spent[0] < 40.0:
+                        shrunk_sigs.add(sig)
+                        t_s = time.time()
                         try:
                             small = shrink(mod, case, sig, timeout)
                         except BaseException:
                             small = case
+                        shrink_spent[0] += time.time() - t_s
                     res["case"] = caseio.jsonable(small)
+                    res["case_sig"] = sig
+                    if len(set(v.get("sig") for v in res["violations"])) > 1 and small is not case:
+                        res["case_full"] = caseio.jsonable(case)
                 elif res["nontrivial"] and i < start + 2:
                     res["case"] = caseio.jsonable(case)
                 out.write(json.dumps(caseio.jsonable(res)) + "\n")
